@@ -7,6 +7,7 @@ CONSTANTS
   MaxStalls = 1
   MaxAsk = 2
   AskSelectsQuit = TRUE
+  ResetStopsUnderLock = FALSE
   FixCallEntry = TRUE
   FixResetSnapshot = TRUE
   FixRemoveOwn = TRUE
